@@ -50,8 +50,9 @@ def _write_twins(modname, path, todo):
     import tempfile
     with open(path) as f:
         tree = ast.parse(f.read())
-    out = ['from %s import *' % modname, 'import %s as _m' % modname, 'from %s import _errors' % modname
-           if hasattr(importlib.import_module(modname), '_errors') else '', '']
+    out = ['import %s as _m' % modname,
+           '# every name of the contracts module (also the underscore-prefixed helpers used in preconditions)',
+           "globals().update({k: v for k, v in vars(_m).items() if not k.startswith('__')})", '']
     for n in tree.body:
         if isinstance(n, ast.FunctionDef) and n.name in todo:
             doc = ast.get_docstring(n) or ''
